@@ -213,7 +213,7 @@ class SimKernel:
             if f["kind"] == "kill_child" and proc.name == "child" and proc.syscalls == f["at"]:
                 f["_done"] = True
                 self._fire("kill_child")
-                proc.pending_signal = 9
+                proc.pending_signal = int(f.get("sig", 9))
                 self._kill_now(proc)
             if f["kind"] == "stall" and proc.name == f["proc"] and proc.syscalls == f["at"]:
                 f["_done"] = True
